@@ -32,10 +32,11 @@ REAL = ["bec2format.bec2file (InitEccAuthBlock, EccEncryptor, EccDecryptor)", "b
         "ecdsa (keys, ecdh, ellipticcurve, util.randrange)", "pyaes"]
 STUBS = ["RNG: SimRng behind os.urandom shims", "key generation observer (register_PrivateEccKey)",
          "device model: RefP256 + RefAES", "openssl binary (thorough tier sample)"]
-PROBES = ["ext-encryptors-not-a-list", "shared-encryptor-two-threads", "keystore-decoys", "default-recipient", "selector-nonzero-default", "edge-recipient-scalar", "edge-ephemeral-scalar",
+PROBES = ["runs-with-assertions-disabled", "file-level-pack", "ext-encryptors-not-a-list", "shared-encryptor-two-threads", "keystore-decoys", "default-recipient", "selector-nonzero-default", "edge-recipient-scalar", "edge-ephemeral-scalar",
           "randrange-retry", "session-key-trailing-zero", "point-off-curve-rejected", "point-coordinate-ge-p",
           "point-zero", "point-negated-still-on-curve", "openssl-agrees"]
 THOROUGH_ONLY_PROBES = ["openssl-agrees"]
+OPTIMIZED_PASS = {"quick": 800, "thorough": 20000}   # extra runs under PYTHONOPTIMIZE=1 (asserts removed)
 ASSUMPTIONS = ["published recipient keys transcribed into sim/prov.py from the appnote/property text"]
 
 N = refp256.N
@@ -277,6 +278,23 @@ def run(case):
                     out.probes["openssl-agrees"] += 1
                 else:
                     out.fail("C09.refmodel", "openssl", "RefP256 ECDH disagrees with openssl (harness model error)")
+        # ---- the same through the file-level API (Bec2File.to_binary), same kind of container ----
+        if case.get("container", "list") != "list" or case["rng"] % 4 == 0:
+            ext2 = {"list": list, "tuple": tuple, "iter": iter, "generator": lambda x: (e for e in x)}[kind_](ext)
+            try:
+                fbin = bf.Bec2File(env.bf3file.Bf3File(), [bf.InitEccAuthBlock(sel)], skey).to_binary(ext2)
+                hdr, _off = prov.parse_header(fbin)
+                d2 = obs.generated[-1][0]
+                k2f = prov.device_unwrap(bspec, hdr[0][0], hdr[0][1], eph_scalar=d2)
+            except Exception as e:
+                out.fail("C09.device", "file-level-" + type(e).__name__, "ECC block written through Bec2File.to_binary "
+                         "(ext_encryptors as %s) cannot be opened: %s" % (kind_, e))
+            else:
+                out.probes["file-level-pack"] += 1
+                if k2f != skey:
+                    out.fail("C09.device", "file-level-wrong-key-" + ("explicit" if case["recip"] is not None else "default"),
+                             "ECC block written through Bec2File.to_binary with ext_encryptors given as %s: the "
+                             "addressed recipient recovers %s, session key is %s" % (kind_, k2f.hex(), skey.hex()))
         # ---- the real decryptor agrees ----
         if priv is not None:
             dec = bf.EccDecryptor(sel, priv)
